@@ -11,9 +11,12 @@ SPEC = dict(
           "be unchanged; a history is non-trivial when it held a write command aimed outside the attacker's subtree and a privileged command. "
           "cut: one case = one (stream, prefix length) pair, consecutive cases enumerate EVERY prefix 0..len of each generated leaver stream "
           "(470-700 hand-framed bytes: SETDATA x4, INSERTORDEREDDATA, 2 subscriptions -- first or last, half of them with an archived Int32/String "
-          "query filter that some witness nodes fail --, further commands incl. re-subscribing with another/no filter) cut on a raw socket against a fresh "
+          "query filter that some witness nodes fail --, in a third of the streams only subscriptions ending in a unique clause incl. backslash-escaped metacharacter names "
+          "(direct-lookup traversal) --, further commands incl. re-subscribing with another/no filter and updates of already shown nodes) cut on a raw socket; "
+          "witnesses own nodes with metacharacter names, a remaining session creates one more after the prefix, and in slow-witness streams the witness "
+          "stops reading behind a 6-40 KB node for part of the prefix and the cut, then drains before the audit (replica == tree restricted to its subscriptions); against a fresh "
           "server with 1-2 subscribed witnesses; non-trivial when at least one byte was sent. regress: fixed witnesses + bench self-checks."),
-    assumptions=['remaining sessions are silent while the leaver is connected, so "state as if the others had run alone" is the snapshot taken before it joined',
+    assumptions=['remaining sessions only create nodes of their own while the leaver is connected, so "state as if the others had run alone" is the snapshot taken before it joined plus exactly those nodes',
                  'subscription paths of victims/witnesses/leaver are restricted to literals, *, (a|b) and a,b clauses so that a 20-line matcher in the harness is the independent reference for the subscriber-table invariant',
                  'private members _currentNodeCount, _sharedData->_cachedSubscribersTables, _lruCache are read in process by explicit template instantiation (no change to /repo)',
                  'a connection end is a close or a write-side shutdown of the client end of a socketpair (no RST on AF_UNIX)',
@@ -26,12 +29,14 @@ SPEC = dict(
         Leg('memcheck_isolate', 'h_isolate', 'plain', opts={'mode': 'isolate'}, quick=16, thorough=640, workers=16, valgrind=True),
         Leg('memcheck_cut', 'h_isolate', 'plain', opts={'mode': 'cut'}, quick=640, thorough=25600, workers=16, valgrind=True),
     ],
-    min_stats={'regress': {'regress_cuts': 20, 'selftest_oracle_fired': 1, 'regress_departure_selftest': 1, 'regress_access_denied': 8, 'regress_filtered_cuts': 16},
+    min_stats={'regress': {'regress_cuts': 20, 'selftest_oracle_fired': 1, 'regress_departure_selftest': 1, 'regress_access_denied': 8, 'regress_filtered_cuts': 16, 'regress_escaped_cuts': 12, 'regress_backlog_cuts': 4},
                'isolate': {'attacker_commands': 80000, 'snapshots': 15000, 'selftest_oracle_fired': 1500, 'attacker_bounced_accessdenied': 20000,
                            'user_messages_delivered_to_victims': 5000, 'snapshots_with_attacker_marks_on_foreign_nodes': 2000, 'max_key_shapes': 27,
                            'pings_answered': 4500, 'victim_filtered_subscriptions': 500},
                'cut': {'streams': 40, 'cuts': 32000, 'cuts_mid_header': 1500, 'cuts_mid_body': 28000, 'cuts_at_frame_boundary': 200,
                        'cuts_with_leaver_marks_on_nodes': 5000, 'cuts_with_leaver_in_cached_tables': 5000, 'cuts_with_witness_shown_leaver_paths': 15000,
                        'removal_notices_after_cut': 50000, 'selftest_trace_oracle_fired': 32000, 'cuts_half_close': 5000,
-                       'cut_leaver_filtered_subscriptions': 1500, 'cut_nodes_matching_path_but_failing_filter': 800, 'cuts_with_marked_node_failing_every_leaver_filter': 200}},
+                       'cut_leaver_filtered_subscriptions': 1500, 'cut_nodes_matching_path_but_failing_filter': 800, 'cuts_with_marked_node_failing_every_leaver_filter': 200,
+                       'cut_escaped_literal_clauses': 3000, 'cut_metachar_nodes_at_departure': 20000, 'cuts_with_leaver_mark_on_late_node': 500,
+                       'cuts_with_paused_witness': 2000, 'updates_queued_behind_backlog_at_removal': 60, 'replica_entries_compared': 50000}},
 )
